@@ -134,10 +134,9 @@ Section Proofs.
           rewrite (map_app t_file) in Il |- *. simpl. rewrite (app_assoc d) in Il |- *.
           apply (perm_insert _ _ (rep k)). exact Il.
         * apply Nat.eqb_neq in Ehk.
-          destruct (h <? S k) eqn:E1; destruct (h <? k) eqn:E2;
+          destruct (Nat.ltb_spec h (S k)); destruct (Nat.ltb_spec h k);
             try (rewrite (map_app t_file) in Il |- *; simpl in Il |- *; exact Il);
-            try apply Nat.ltb_lt in E1; try apply Nat.ltb_ge in E1;
-            try apply Nat.ltb_lt in E2; try apply Nat.ltb_ge in E2; exfalso; lia.
+            exfalso; lia.
       + intros h Hh. unfold upd. replace (Nat.eqb h k) with false by (symmetry; apply Nat.eqb_neq; lia). auto.
       + intros t Ht. apply in_app_or in Ht as [Ht|[<-|Ht]].
         * apply Ip; apply in_or_app; auto.
@@ -151,12 +150,12 @@ Section Proofs.
       { intros. rewrite <- !app_assoc. apply Permutation_app_head. simpl.
         apply (Permutation_middle m1 (m2 ++ q) f). }
       constructor; simpl.
-      + rewrite map_app in *. simpl in *. eapply perm_trans; [apply P|exact If].
+      + rewrite (map_app t_file) in If |- *. simpl in If. eapply perm_trans; [apply P|exact If].
       + intros h Hh. unfold appended in *; simpl in *. specialize (Il h Hh).
-        rewrite filter_app in *. simpl in *.
+        rewrite filter_app in Il |- *. simpl in Il.
         replace (h <? H) with true in Il by (symmetry; apply Nat.ltb_lt; lia).
         eapply perm_trans; [exact Il|]. apply Permutation_map. symmetry.
-        rewrite map_app in *. simpl.
+        rewrite !(map_app t_file). simpl.
         specialize (P (map t_file (filter (fun t => h <? t_prog t) r1))
                       (map t_file (filter (fun t => h <? t_prog t) r2)) []).
         rewrite !app_nil_r in P. exact P.
@@ -341,14 +340,12 @@ Section Proofs.
       + apply Nat.eqb_eq in Ehk; subst h.
         replace (k <? S k) with true by (symmetry; apply Nat.ltb_lt; lia).
         replace (k <? k) with false in Il by (symmetry; apply Nat.ltb_ge; lia).
-        simpl in *. rewrite Il. rewrite !map_app. reflexivity.
+        simpl in *. rewrite Il, app_nil_r, map_app. reflexivity.
       + apply Nat.eqb_neq in Ehk.
-        destruct (h <? S k) eqn:E1; destruct (h <? k) eqn:E2; auto;
-          try apply Nat.ltb_lt in E1; try apply Nat.ltb_ge in E1;
-          try apply Nat.ltb_lt in E2; try apply Nat.ltb_ge in E2; exfalso; lia.
+        destruct (Nat.ltb_spec h (S k)); destruct (Nat.ltb_spec h k); auto; exfalso; lia.
     - destruct r1; [|simpl in Ib; rewrite app_length in Ib; simpl in Ib; lia].
       destruct r2; [|simpl in Ib; lia]. simpl in *. constructor; simpl; auto.
-      + rewrite <- app_assoc. exact If.
+      + rewrite <- app_assoc. reflexivity.
       + intros h Hh. specialize (Il h Hh). unfold appended in *; simpl in *.
         replace (h <? H) with true in Il by (symmetry; apply Nat.ltb_lt; lia). simpl in Il.
         rewrite app_nil_r. exact Il.
@@ -426,15 +423,14 @@ Section Proofs.
     - rewrite <- Ec. apply (count_eq_files _ _ _ R F).
   Qed.
 
-  (** * the sink: what reaches the output file *)
-  Theorem sink_on_class : forall N fs s h par,
+  (** * the sink: what reaches the output file (after 89a45c7: everything, in every path) *)
+  Theorem sink_complete : forall N fs s h par g,
     reachable N fs s -> final s -> h < H ->
-    view fs (sink par true (lists s h)) = view fs (sink false true (serial_list h fs)) /\
-    view fs (sink false false (lists s h)) = view fs (serial_list h fs).
+    view fs (sink par g (lists s h)) = view fs (serial_list h fs).
   Proof.
-    intros N fs s h par R F Hh. unfold sink. rewrite andb_false_r. simpl.
+    intros N fs s h par g R F Hh. unfold sink.
     destruct (serial_is_execution fs) as [s0 [R0 [F0 [E0 _]]]].
-    destruct (per_file_view_schedule_independent _ _ _ _ _ h R F R0 F0 Hh) as [_ [_ V]]. split; exact V.
+    destruct (per_file_view_schedule_independent _ _ _ _ _ h R F R0 F0 Hh) as [_ [_ V]]. exact V.
   Qed.
 End Proofs.
 
@@ -473,33 +469,30 @@ Proof.
   rewrite L0, L1. vm_compute. discriminate.
 Qed.
 
-(** F-C42-1: in the parallel path the text of a handler may never reach its file *)
-Theorem file_output_refuted :
+(** F-C42-1 (fixed by 89a45c7), OLD behaviour: in the parallel path the text of a handler could never reach its file *)
+Theorem file_output_old_refuted :
   exists fs s h, reachable 2 ex_cont ex_ok 2 fs s /\ final s /\ h < 2 /\
-    view fs (sink true false (lists s h)) <> view fs (sink false false (serial_list ex_cont h fs)).
+    view fs (sink_old true false (lists s h)) <> view fs (sink_old false false (serial_list ex_cont h fs)).
 Proof.
   destruct ex_run as [s [R [F [L0 _]]]]. exists [0; 1; 2]%Z, s, 0.
   split; [apply run_sound in R; exact R|]. split; [apply finalb_final; auto|]. split; [lia|].
-  unfold sink. simpl. vm_compute. discriminate.
+  unfold sink_old. simpl. vm_compute. discriminate.
 Qed.
 
-(** F-C42-2: logger handlers at odd positions survive in the worker and see every message twice *)
-Lemma survives_odd : forall j, survives j = Nat.odd j.
+(** F-C42-2 (fixed by 230fb41), OLD behaviour: logger handlers at odd positions survived in the worker and saw every message twice *)
+Lemma survives_old_odd : forall j, survives_old j = Nat.odd j.
 Proof.
-  fix IH 1. intros [|[|j]]; try reflexivity. simpl survives. rewrite IH.
-  change (S (S j)) with (2 + j). rewrite Nat.odd_add_even; [reflexivity|]. exists 1; reflexivity.
+  fix IH 1. intros [|[|j]]; try reflexivity. simpl survives_old. rewrite IH. reflexivity.
 Qed.
 
-Lemma survivors_length : forall (A : Type) (l : list A), length (survivors l) = Nat.div2 (length l).
-Proof. intros A. fix IH 1. intros [|x [|y l]]; try reflexivity. simpl. f_equal. apply IH. Qed.
-
-Theorem log_copies_refuted : log_copies true 1 = 2 /\ log_copies false 1 = 1.
+Theorem log_copies_old_refuted : log_copies_old true 1 = 2 /\ log_copies_old false 1 = 1.
 Proof. split; reflexivity. Qed.
 
-Theorem log_copies_on_class : forall nh j, nh <= 1 -> j < nh -> log_copies true j = log_copies false j.
-Proof. intros nh j Hn Hj. assert (j = 0) by lia. subst. reflexivity. Qed.
-
-Theorem survivors_none_iff : forall (A : Type) (l : list A), survivors l = [] <-> length l <= 1.
+Theorem survivors_old_none_iff : forall (A : Type) (l : list A), survivors_old l = [] <-> length l <= 1.
 Proof.
   intros A [|x [|y l]]; simpl; split; intros; auto; try lia; try discriminate.
 Qed.
+
+(** now: every logger handler of the parent sees each message once, whatever the number of handlers and workers *)
+Theorem log_copies_independent : forall j, log_copies true j = log_copies false j /\ log_copies true j = 1.
+Proof. intros j. split; reflexivity. Qed.
